@@ -117,5 +117,8 @@ func BuildDependency(argumentListContext *parser.ArgumentListContext) *core_doma
 func ConvertToJDep(result string) *core_domain.CodeDependency {
 	withoutQuote := strings.ReplaceAll(strings.ReplaceAll(result, "'", ""), "\"", "")
 	split := strings.Split(withoutQuote, ":")
+	if len(split) < 2 {
+		return nil
+	}
 	return core_domain.NewCodeDependency(split[0], split[1])
 }
